@@ -373,6 +373,8 @@ func (c *Chan[T]) canRecv() bool {
 
 func (c *Chan[T]) Send(v T) {
 	yieldPoint()
+	// a goroutine can be pre-empted right after the operation completed, too
+	defer yieldPoint()
 	if c == nil {
 		for {
 			block()
@@ -407,6 +409,7 @@ func (c *Chan[T]) Send(v T) {
 
 func (c *Chan[T]) Recv2() (T, bool) {
 	yieldPoint()
+	defer yieldPoint()
 	if c == nil {
 		for {
 			block()
@@ -529,6 +532,7 @@ var selectRendezvousWaiters int
 // the scheduler stream (Go chooses uniformly at random).
 func Select(hasDefault bool, cases ...SelCase) int {
 	yieldPoint()
+	defer yieldPoint()
 	for {
 		var ready []int
 		for i, c := range cases {
@@ -584,6 +588,7 @@ func (m *Mutex) Lock() {
 		block()
 	}
 	m.locked = true
+	yieldPoint()
 }
 
 func (m *Mutex) TryLock() bool {
